@@ -71,7 +71,7 @@ def decode_html(path):
 def render_all(txns, w, views=False):
     stats = analyze_transactions([dict(t, tags=list(t['tags'])) for t in txns])
     if views:
-        cfg = parse_sections('[Big]\nfilter: total > 50\n\n[Food]\nfilter: category == "Food"\n')
+        cfg = parse_sections(views if isinstance(views, str) else '[Big]\nfilter: total > 50\n\n[Food]\nfilter: category == "Food"\n')
         res = classify_by_sections(stats['by_merchant'], cfg, stats['num_months'])
         stats['sections'] = {n: compute_section_totals(ms) for n, ms in res.items()}
         stats['_sections_config'] = cfg
@@ -152,9 +152,15 @@ def render_all(txns, w, views=False):
             want_merchants = sorted(stats['by_merchant'])
             if sorted(merchants) != want_merchants or any(v != 1 for v in merchants.values()):
                 O.fail('C12.html.merchants_not_exactly_once', w, want_merchants, sorted(merchants.items()))
-            want_txns = sorted((t['merchant'], t['raw_description'], _eff(t), t['date'].strftime('%Y-%m'), tuple(t['tags']), t['source'], json.dumps(t.get('extra_fields'), sort_keys=True)) for t in txns)
+            want_txns = sorted((t['merchant'], t['raw_description'], _eff(t), t['date'].strftime('%Y-%m'), tuple(t['tags']), t['source'], json.dumps(t.get('extra_fields'), sort_keys=True, default=str)) for t in txns)
             if sorted(txn_seen) != want_txns:
                 O.fail('C12.html.transactions_not_exactly_once', w, want_txns[:4], sorted(txn_seen)[:4])
+            if views:
+                # every analysed view that has merchants is in the report, under its own name, with exactly its merchants
+                want_views = sorted((n, sorted(m for m, _ in sec.get('merchants', []))) for n, sec in stats['sections'].items() if sec.get('merchants'))
+                got_views = sorted((sec['title'], sorted(m['displayName'] for m in sec['merchants'].values())) for sec in data.get('sections', {}).values())
+                if want_views != got_views:
+                    O.fail('C12.html.views_not_exactly_as_analysed', w, want_views, got_views, 'spendingData.sections vs classify_by_sections')
             ids = [t for cat in data['categoryView'].values() for sub in cat['subcategories'].values() for m in sub['merchants'].values() for t in [x['id'] for x in m['transactions']]]
             if len(ids) != len(set(ids)):
                 O.fail('C12.html.transaction_ids_not_unique', w, 'unique ids', sorted(ids)[:6])
@@ -192,6 +198,8 @@ def main():
             tx += [T(n, 'Odd', 'Names', 10.0 + i, 4, 1 + i) for i, n in enumerate(w['names'])]
         if 'description' in w:
             tx.append(T('Hostile', 'Odd', 'Text', 7.0, 4, 9, desc=w['description'], tags=w.get('tags', [])))
+        if w.get('case') == 'extra_field_values':
+            tx.append(T('Dated', 'Odd', 'Fields', 9.0, 4, 9, extra=eval(w['extra'], {'datetime': __import__('datetime')})))
         render_all(tx, w, views=w.get('views', False))
         O.finish()
     render_all(base_txns(), {'case': 'base'})
@@ -225,6 +233,13 @@ def main():
     # collisions of three and more names, and a real merchant named like a suffixed id
     for group in (('A B', 'A_B', "'A_B'"), ("Joe's Cafe", 'Joes Cafe', 'Joes_Cafe_2'), ('Joes_Cafe_2', "Joe's Cafe", 'Joes Cafe'), ('X Y', 'X_Y', "X'_Y", 'X"_Y', 'X_Y_2', 'X_Y_3')):
         render_all(base_txns()[:2] + [T(n, 'Odd', 'Names', 10.0 * (j + 1), 4, 1 + j) for j, n in enumerate(group)], {'names': list(group)})
+    # view names that reduce to the same derived id
+    for vt in ('[Big Bills]\nfilter: total > 50\n\n[big_bills]\nfilter: total <= 50\n', '[Food]\nfilter: category == "Food"\n\n[food]\nfilter: category != "Food"\n',
+               '[A B]\nfilter: total > 50\n\n[a b]\nfilter: total > 10\n\n[a_b]\nfilter: total > 0\n\n[a_b_2]\nfilter: total > 20\n'):
+        render_all(base_txns(), {'case': 'colliding_view_names', 'views': vt}, views=vt)
+    # extra fields (field: directives) whose value is not a JSON type: a date, a row of a supplemental source (a dict holding a date), a list of them
+    for extra in ({'posted': datetime(2025, 1, 2).date()}, {'order': {'id': 7, 'date': datetime(2025, 1, 2).date()}}, {'orders': [{'date': datetime(2025, 1, 2).date()}]}):
+        render_all(base_txns() + [T('Dated', 'Odd', 'Fields', 9.0, 4, 9, extra=extra)], {'case': 'extra_field_values', 'extra': repr(extra)})
     O.sample({'description': HOSTILE[0]})
     O.finish()
 
